@@ -142,9 +142,12 @@ extern "C" int __wrap_mprotect(void* p, size_t len, int prot)
     {
         if (g_up()->find_containing(g_up()->offset_of(p), u32(len)) < 0)
             T().fail("M-upstream", "commit-outside-reservation", "virtual memory commit/decommit outside a reserved range");
-        if (prot != PROT_NONE && g_mprotect_fail)
+        if (prot != PROT_NONE && g_up()->fail_armed)
         {
-            g_mprotect_fail = 0;
+            // "fail the next upstream call": for the virtual source the commit of a block is that call
+            g_up()->fail_armed = 0;
+            ++T().up_failed;
+            T().event("upstream_injected_failure");
             return -1;
         }
         return 0;
@@ -444,9 +447,23 @@ struct arena_policy
         (void)r;
     }
     template <class W>
-    static void check_failed_alloc(W& w, int s, const verif::alloc_req&, const obs& before, int)
+    static void check_failed_alloc(W& w, int s, const verif::alloc_req&, const obs& before, int ex)
     {
         auto& o = S::obj(s);
+        // a refusal must have a reason: the upstream failed in this operation, or the fixed source is really exhausted
+        if (T().up_failed == 0 && (ex == EX_OOM || ex == EX_OOFM))
+        {
+            u32 mine = 0;
+            for (u32 i = 0; i < w.x.bl.n; ++i)
+                mine += w.x.bl.e[i].owner == u32(s);
+            std::size_t capacity = src_traits<Src>::kind == SRC_STATIC ? PP.storage / PP.bs
+                                   : src_traits<Src>::kind == SRC_VIRTUAL ? (PP.storage / 4096 ? PP.storage / 4096 : 3)
+                                   : std::is_same<Src, src_fixed>::value ? 1 : std::size_t(-1);
+            if (capacity == std::size_t(-1) || mine < capacity)
+                T().fail("M-fail", "refused-although-available",
+                         fmt("allocate_block() threw %s although the source has %u of %zu blocks outstanding and the upstream did not fail", exc_name(ex),
+                             mine, capacity));
+        }
         if (o.size() != before.used || o.cache_size() != before.cached)
             T().fail("M-counters", "failed-alloc-changed-state", "a failed allocate_block() changed the arena");
         if (before.cached)
